@@ -58,6 +58,51 @@ Theorem C04_pp_key_parts_sound :
 Proof. exact pp_key_eqb_sound. Qed.
 Print Assumptions C04_pp_key_parts_sound.
 
+(* add_result stores a result with ALL the include files it was handed (same paths, same digests, in order), or -
+   when one of them can no longer be stat'ed - stores nothing new: a header that was read is never silently dropped
+   from the manifest. *)
+Theorem C04_add_result_all_or_nothing :
+  forall (D : Type) (e : entry D) (fs : fsnap) (start : N) (k : key) (files : list (idigest D * path)),
+    (exists incs,
+        rs_find D k (results D (add_result D e fs start k files)) = Some incs /\
+        map (ie_path D) incs = map snd files /\ map (ie_digest D) incs = map fst files /\
+        (forall f, In f files -> fs_get fs (snd f) <> None))
+    \/
+    ((exists f, In f files /\ fs_get fs (snd f) = None) /\
+     forall k' v, In (k', v) (results D (add_result D e fs start k files)) -> In (k', v) (results D e)).
+Proof. exact add_result_all_or_nothing. Qed.
+Print Assumptions C04_add_result_all_or_nothing.
+
+(* C04_lookup_sound with the WINDOW of generate_hash_key: the include recorder runs in file system `ro_fs op`, and
+   add_result stats the files later, in a file system from which any files may have been REMOVED in between (sub_fs).
+   The conclusion is the same: every include the recorder had to remember is unchanged at an accepted lookup. *)
+Theorem C04_lookup_sound_window :
+  forall (D : Type) (Deqb : D -> D -> bool) (H : bytes -> D) (HT : option bytes -> option N -> D),
+    (forall a b : D, Deqb a b = true -> a = b) ->
+    (forall a b : bytes, H a = H b -> a = b) ->
+    (forall od om od' om', HT od om = HT od' om' -> od = od' /\ om = om') ->
+    forall (cfg : config) (ops : list (rec_op * fsnap)) (fs1 : fsnap) (date1 : bytes) (k : key),
+      Forall (fun o => sub_fs (snd o) (ro_fs (fst o))) ops ->
+      (file_stat_matches cfg = true -> use_ctime_for_stat cfg = true ->
+       forall op, In op (map fst ops) -> stat_trust (ro_fs op) fs1) ->
+      lookup_result_digest D Deqb H HT cfg fs1 date1 (run_recs_w D H HT cfg ops) = Some k ->
+      exists op, In op (map fst ops) /\ ro_key op = k /\
+        forall p, must_record cfg op p -> unchanged cfg (ro_fs op) (ro_date op) fs1 date1 p.
+Proof. exact lookup_sound_w. Qed.
+Print Assumptions C04_lookup_sound_window.
+
+(* hash_working_directory: the argument list generate_hash_key hands to the preprocessor-cache key ends with the
+   working directory, so two requests from different directories never have the same list - whatever the spelling
+   (relative / absolute) of the input path.  Source side condition: Proofs/PpTimeline.v prelude_cwd_guard_ok (the push
+   of the working directory is guarded by hash_working_directory and nothing else). *)
+Theorem C04_cwd_in_pp_key :
+  forall (cfg : config) pre1 arch1 common1 prof1 cwd1 pre2 arch2 common2 prof2 cwd2,
+    hash_working_directory cfg = true ->
+    prelude_pp_args cfg pre1 arch1 common1 prof1 cwd1 = prelude_pp_args cfg pre2 arch2 common2 prof2 cwd2 ->
+    cwd1 = cwd2.
+Proof. exact pp_args_cwd. Qed.
+Print Assumptions C04_cwd_in_pp_key.
+
 (* Recording is given up (and the stored manifest left untouched) exactly when one of the includes the recorder
    has to look at is missing, not a regular file or directory, has mtime >= start or ctime >= start, or
    (unless ignore_time_macros) mentions __TIME__ — in particular a header with mtime < start and ctime < start
@@ -277,3 +322,12 @@ Example C04_instant_example :
     = Some (Some [(bs "/w/a.h", Plain (bs "NEW"))]) /\
   t_seen Dg (trun Dg Hx HTx cfg_default [] (bs "/w/input.c") tl_incs tl_fs tl_late) = [(bs "/w/a.h", Some (bs "OLD"))].
 Proof. vm_compute. repeat split; reflexivity. Qed.
+
+(* a header that vanished between the include recorder and add_result: nothing is recorded (and so nothing is hit
+   after it comes back with other contents) *)
+Definition fs_gone : fsnap := [(bs "a.h", hdr (bs "AAAA") 90 90)].
+Example C04_vanished_header_example :
+  results Dg (fst (apply_rec_w Dg Hx HTx cfg_default (entry_new Dg) op_ab fs_gone)) = [] /\
+  lookup_result_digest Dg bytes_eqb Hx HTx cfg_default fs_b []
+     (fst (apply_rec_w Dg Hx HTx cfg_default (entry_new Dg) op_ab fs_gone)) = None.
+Proof. vm_compute. split; reflexivity. Qed.
